@@ -44,6 +44,8 @@ pub const N_BUGGIFY: usize = 4;
 pub const N_PROBES: usize = 40;
 /// Event code (outside the probe range) passed to the event hook by `atomic_store` itself.
 pub const OWNER_ONLY_STORE: u32 = 1000;
+/// Event code base: a node's `in_use` word was just written; code = base + new value.
+pub const IN_USE_WRITE_BASE: u32 = 1100;
 pub const N_OPKINDS: usize = 32;
 
 #[derive(Clone, Debug)]
@@ -76,6 +78,11 @@ pub struct Config {
     pub history: usize,
     /// After a probe marked as "in-flight state created", switch with this probability (x/256).
     pub p_switch_after_mark: u32,
+    /// Fault kind "stalled thread": after such a probe the thread is not scheduled for a drawn
+    /// number of global steps (x/256 chance; lengths 30, 150, 600 steps), unless nobody else can run.
+    pub p_stall_after_mark: u32,
+    /// The same fault at any scheduling point (x/4096 chance per point).
+    pub p_stall_any: u32,
 }
 
 impl Default for Config {
@@ -98,6 +105,8 @@ impl Default for Config {
             tls_lifo: true,
             history: 6,
             p_switch_after_mark: 0,
+            p_stall_after_mark: 0,
+            p_stall_any: 0,
         }
     }
 }
@@ -116,6 +125,7 @@ pub enum DecKind {
     Reuse = 4,
     Probe = 5,
     Harness = 6,
+    Stall = 7,
 }
 
 impl DecKind {
@@ -128,6 +138,7 @@ impl DecKind {
             DecKind::Reuse => 'a',
             DecKind::Probe => 'p',
             DecKind::Harness => 'h',
+            DecKind::Stall => 'z',
         }
     }
 }
@@ -409,6 +420,8 @@ struct Thread {
     final_ts: u32,
     inst: u32,
     last_probe: usize,
+    /// Not scheduled before the global step count reaches this (fault kind "stall").
+    stalled_until: u64,
 }
 
 struct Sem {
@@ -443,6 +456,7 @@ pub struct Stats {
     pub addr_reuse: u64,
     pub probes: [u64; N_PROBES],
     pub solo_probes: u64,
+    pub stalls: u64,
     pub solo_probe_max_steps: u64,
     pub solo_probe_by_op: [u64; N_OPKINDS],
     pub meter_max: [u64; N_OPKINDS],
@@ -472,6 +486,7 @@ impl Default for Stats {
             addr_reuse: 0,
             probes: [0; N_PROBES],
             solo_probes: 0,
+            stalls: 0,
             solo_probe_max_steps: 0,
             solo_probe_by_op: [0; N_OPKINDS],
             meter_max: [0; N_OPKINDS],
@@ -861,6 +876,7 @@ impl Runtime {
             final_ts: 0,
             inst,
             last_probe: usize::MAX,
+            stalled_until: 0,
         };
         if tid < self.threads.len() {
             self.threads[tid] = th;
@@ -953,12 +969,24 @@ impl Runtime {
     }
 
     fn runnable(&self, t: Tid) -> bool {
-        self.threads[t].state == TState::Runnable
+        self.threads[t].state == TState::Runnable && self.threads[t].stalled_until <= self.stats.steps
     }
 
     /// Chooses the thread to run next. `cur_gone`: the current thread cannot continue.
     fn pick_next(&mut self, cur_gone: bool) -> Option<Tid> {
         let cur = self.current;
+        // Fault kind "stall": right after a step that created in-flight state the thread may be
+        // taken off the processor for a long time (a decision like any other; pick 0 = no stall).
+        let stall_p = if self.mark_pending { self.cfg.p_stall_after_mark * 16 } else { 0 } + self.cfg.p_stall_any;
+        if stall_p > 0 && !cur_gone && self.probe.is_none() && self.runnable(cur) {
+            let p = stall_p as u64;
+            let k = self.decide(DecKind::Stall, 4, |rng, _| if (rng.next() & 0xfff) < p { 1 + rng.below(3) as usize } else { 0 });
+            if k > 0 {
+                self.mark_pending = false;
+                self.stats.stalls += 1;
+                self.threads[cur].stalled_until = self.stats.steps + [0, 30, 150, 600][k];
+            }
+        }
         let cur_ok = !cur_gone && self.runnable(cur);
         // Solo probe: only the probed thread runs.
         if let Some(p) = &self.probe {
@@ -984,6 +1012,18 @@ impl Runtime {
             }
         }
         if n == 0 {
+            // Only stalled threads left: the stall ends (a stall must not turn into a deadlock).
+            let steps = self.stats.steps;
+            let mut woke = false;
+            for t in 0..self.threads.len() {
+                if self.threads[t].state == TState::Runnable && self.threads[t].stalled_until > steps {
+                    self.threads[t].stalled_until = 0;
+                    woke = true;
+                }
+            }
+            if woke {
+                return self.pick_next(cur_gone);
+            }
             return None;
         }
         if n == 1 {
@@ -991,6 +1031,7 @@ impl Runtime {
         }
         let optsc = opts;
         let pick = self.decide(DecKind::Sched, n, |rng, me| me.sched_policy(rng, &optsc[..n], cur_ok));
+        self.mark_pending = false;
         let next = opts[pick];
         if next != cur {
             self.stats.ctx_switches += 1;
@@ -1002,7 +1043,7 @@ impl Runtime {
     fn sched_policy(&mut self, rng: &mut Rng, opts: &[Tid], cur_ok: bool) -> usize {
         let n = opts.len();
         if self.mark_pending {
-            self.mark_pending = false;
+            // (cleared by the caller, outside the generator, so that record and replay agree)
             if cur_ok && rng.chance256(self.cfg.p_switch_after_mark) {
                 return 1 + rng.below(n as u64 - 1) as usize;
             }
@@ -2157,6 +2198,16 @@ pub(crate) fn atomic_load(
     val
 }
 
+
+#[inline]
+fn report_in_use_write(rt: &mut Runtime, li: usize, meta: &std::sync::atomic::AtomicU64, new: usize) {
+    if rt.locs[li].class == LocClass::InUse {
+        if let Some(h) = rt.event_hook {
+            h(IN_USE_WRITE_BASE + (new as u32 & 0xff), meta as *const _ as usize);
+        }
+    }
+}
+
 pub(crate) fn atomic_store(
     meta: &std::sync::atomic::AtomicU64,
     hint: u32,
@@ -2194,6 +2245,7 @@ pub(crate) fn atomic_store(
     let mo = rt.push_store(li, val, t, ts, rel, is_sc(ord));
     mirror(val);
     rt.log_event(OpK::Store, li, ord, -1, mo, val, 0, 0, site);
+    report_in_use_write(rt, li, meta, val);
 }
 
 /// Read-modify-write that always succeeds (swap, fetch_add, ...). Returns the old value.
@@ -2245,6 +2297,7 @@ pub(crate) fn atomic_rmw(
     let mo = rt.push_store(li, new, t, ts, rel, is_sc(ord));
     mirror(new);
     rt.log_event(OpK::Rmw, li, ord, rf, mo, new, old, 0, site);
+    report_in_use_write(rt, li, meta, new);
     old
 }
 
@@ -2376,6 +2429,7 @@ pub(crate) fn atomic_cas(
     };
     mirror(new);
     rt.log_event(OpK::CasOk, li, succ, rf, mo, new, expected, 0, site);
+    report_in_use_write(rt, li, meta, new);
     Ok(expected)
 }
 
